@@ -40,7 +40,8 @@ DetObserve ==
         /\ dis' = IF Agrees(e.input, e.digest) \/ ~ok THEN dis
                   ELSE Append(dis, [event |-> l, input |-> e.input,
                                     cfg |-> C!Id(e.cfg), first |-> C!Id(who[e.input]),
-                                    axes |-> SetToSeq(C!DiffAxes(who[e.input], e.cfg))])
+                                    axes |-> SetToSeq(C!DiffAxes(who[e.input], e.cfg)),
+                                    image |-> IF C!SameImage(who[e.input], e.cfg) THEN "same" ELSE "differs"])
 
 DetReset  == StepReset /\ UNCHANGED <<dis, invalid>>
 
